@@ -324,19 +324,38 @@ pub fn brotli_decompress_all(data: &[u8]) -> Result<Vec<u8>, String> {
     Ok(o)
 }
 
-/// Decode as much as possible of a (possibly truncated) brotli stream
+/// Decode as much as possible of a (possibly truncated) brotli stream: everything
+/// the decoder can produce from these input bytes (streaming API, drained).
 pub fn brotli_decompress_prefix(data: &[u8]) -> Vec<u8> {
-    let mut d = brotli::Decompressor::new(data, 4096);
-    let mut o = Vec::new();
-    let mut buf = [0u8; 4096];
+    use brotli::writer::StandardAlloc;
+    let mut state = brotli::BrotliState::new(StandardAlloc::default(), StandardAlloc::default(), StandardAlloc::default());
+    let mut out = Vec::new();
+    let mut buf = vec![0u8; 65536];
+    let mut available_in = data.len();
+    let mut input_offset = 0usize;
     loop {
-        match d.read(&mut buf) {
-            Ok(0) => break,
-            Ok(n) => o.extend_from_slice(&buf[..n]),
-            Err(_) => break,
+        let mut available_out = buf.len();
+        let mut output_offset = 0usize;
+        let mut written = 0usize;
+        let r = brotli::BrotliDecompressStream(
+            &mut available_in,
+            &mut input_offset,
+            data,
+            &mut available_out,
+            &mut output_offset,
+            &mut buf,
+            &mut written,
+            &mut state,
+        );
+        out.extend_from_slice(&buf[..output_offset]);
+        match r {
+            brotli::BrotliResult::NeedsMoreOutput => continue,
+            // all input may be consumed while output is still pending: drain it
+            brotli::BrotliResult::NeedsMoreInput if output_offset > 0 => continue,
+            _ => break,
         }
     }
-    o
+    out
 }
 
 pub fn dec_compress(k: &K, inner: &[u8]) -> Result<(Vec<u8>, CompInfo), String> {
